@@ -97,6 +97,23 @@ func mutate(rng *rand.Rand, s string) string {
 	return string(b)
 }
 
+// evalNumberCap bounds the numbers in expressions of the strings layer that are handed to the evaluators.
+const evalNumberCap = 1_000_000
+
+func maxNumber(tt []pagesel.Term) int {
+	m := 0
+	for _, t := range tt {
+		switch t.Shape.Numbers() {
+		case 2:
+			m = max(m, t.B)
+			fallthrough
+		case 1:
+			m = max(m, t.A)
+		}
+	}
+	return m
+}
+
 // invalidClass names the structural class of a string outside the grammar that was accepted.
 func invalidClass(s string) string {
 	switch {
@@ -151,11 +168,11 @@ func (c *checker) checkString(s string, rng *rand.Rand, st *stats, cls map[strin
 		return
 	case pagesel.Valid:
 		if !accepted {
-			kk := make([]string, len(tt))
+			recs := make([]*termRec, len(tt))
 			for i, x := range tt {
-				kk[i] = x.ShapeKey()
+				recs[i] = newRec(0, x)
 			}
-			c.violate(st, "syntax/rejected-valid/terms="+strings.Join(kk, ","),
+			c.violate(st, c.attribute("syntax", "rejected-valid", 0, recs, tt, func(*termRec) string { return "" }),
 				func() string {
 					return fmt.Sprintf("ParsePageSelection(%q) rejects an expression of the documented grammar: %v", s, err)
 				},
@@ -166,6 +183,13 @@ func (c *checker) checkString(s string, rng *rand.Rand, st *stats, cls map[strin
 		}
 		if pagesel.HasBig(tt) {
 			cls["strings/valid-with-number-beyond-int-not-evaluated"]++
+			return
+		}
+		// A correct evaluator costs O(page count) whatever the numbers are; one that lost a clamp costs
+		// O(number) in time and memory ("1-1000000000" from a duplicated digit took the worker to 25 GB on a
+		// mutated tree). Numbers up to evalNumberCap are far beyond every page count used and still evaluated.
+		if maxNumber(tt) > evalNumberCap {
+			cls["strings/valid-with-number-beyond-cap-not-evaluated"]++
 			return
 		}
 		n := rng.IntN(maxN + 1)
